@@ -18,6 +18,7 @@ mod c02;
 mod c06;
 mod c07;
 mod c08;
+mod c09;
 mod c10;
 mod c11;
 mod c12;
@@ -71,6 +72,7 @@ fn main() {
         "c06" => (c06::gen, c06::exec),
         "c07" => (c07::gen, c07::exec),
         "c08" => (c08::gen, c08::exec),
+        "c09" => (c09::gen, c09::exec),
         "c10" => (c10::gen, c10::exec),
         "c11" => (c11::gen, c11::exec),
         "c12" => (c12::gen, c12::exec),
